@@ -263,8 +263,10 @@ func (a Bytes) M__add__(other Object) (Object, error) {
 
 func (a Bytes) M__iadd__(other Object) (Object, error) {
 	if b, ok := convertToBytes(other); ok {
-		a = append(a, b...)
-		return a, nil
+		// bytes are immutable: the result must not share a's
+		// backing array (append would write into its spare
+		// capacity, which an earlier result may be using)
+		return a.M__add__(b)
 	}
 	return NotImplemented, nil
 }
